@@ -312,7 +312,7 @@ func (p *upath) valueAt(v ssa.Value, idx int) ssa.Value {
 		}
 		r := p.resolve(v)
 		if ph, ok := r.(*ssa.Phi); ok {
-			if e := p.phi(ph); e != nil {
+			if e := p.phiAt(ph, idx); e != nil {
 				r = e
 			}
 		}
@@ -347,13 +347,30 @@ func (p *upath) resolve(v ssa.Value) ssa.Value {
 }
 
 // phi resolves a phi node by the block from which its block was entered on this path.
-func (p *upath) phi(ph *ssa.Phi) ssa.Value {
+func (p *upath) phi(ph *ssa.Phi) ssa.Value { return p.phiAt(ph, -1) }
+
+// phiAt resolves the phi as seen at index at of the path: the occurrence of the phi at or before that index
+// (a helper called twice on one path executes its phis twice); at < 0 selects the first occurrence.
+func (p *upath) phiAt(ph *ssa.Phi, at int) ssa.Value {
 	// find the position of the phi's block entry in Instrs, then the previous instruction of the same function in another block
 	idx := -1
 	for i, in := range p.Instrs {
 		if in == ssa.Instruction(ph) {
-			idx = i
-			break
+			if at < 0 {
+				idx = i
+				break
+			}
+			if i <= at {
+				idx = i
+			}
+		}
+	}
+	if idx < 0 && at >= 0 {
+		for i, in := range p.Instrs {
+			if in == ssa.Instruction(ph) {
+				idx = i
+				break
+			}
 		}
 	}
 	if idx < 0 {
@@ -527,7 +544,7 @@ func enumPathsOpt(f *ssa.Function, limit int, cutLoops bool) ([]upath, bool) {
 						continue
 					}
 					if ph, ok := cond.(*ssa.Phi); ok {
-						if e := cur.phi(ph); e != nil {
+						if e := cur.phiAt(ph, len(cur.Instrs)-1); e != nil {
 							cond = e
 							continue
 						}
@@ -548,7 +565,7 @@ func enumPathsOpt(f *ssa.Function, limit int, cutLoops bool) ([]upath, bool) {
 						other = b.Y
 					}
 					if other != nil {
-						if rv := cur.value(other); rv != other {
+						if rv := cur.valueAt(other, len(cur.Instrs)-1); rv != other {
 							switch strip(rv).(type) {
 							case *ssa.Alloc, *ssa.MakeClosure, *ssa.MakeMap, *ssa.MakeChan, *ssa.MakeSlice, *ssa.Function, *ssa.Global:
 								known, knownVal = true, b.Op == token.NEQ
@@ -572,7 +589,7 @@ func enumPathsOpt(f *ssa.Function, limit int, cutLoops bool) ([]upath, bool) {
 				}
 				if b, ok := cond.(*ssa.BinOp); ok && !known {
 					// comparison of a value with itself (a phi resolved along this path)
-					if x, y := cur.value(b.X), cur.value(b.Y); x == y && isIntegerType(x.Type()) {
+					if x, y := cur.valueAt(b.X, len(cur.Instrs)-1), cur.valueAt(b.Y, len(cur.Instrs)-1); x == y && isIntegerType(x.Type()) {
 						switch b.Op {
 						case token.LSS, token.GTR, token.NEQ:
 							known, knownVal = true, false
